@@ -406,6 +406,7 @@ def register(reg):
     for c in unmarshal_payload_contracts_assumed():
         reg.add(c)
     reg.add(unmarshal_contract())
+    reg.add(unmarshal_envelope_contract())
     reg.add(frame_marshal_contract())
     for c in lemma_contracts() + c07_c20_lemma_contracts():
         reg.add(c)
@@ -605,3 +606,42 @@ def c07_c20_lemma_contracts():
                         pure=False, bounded=False,
                         doc='C20: for every frame the low-level encoder produces (all kinds share _marshal)'))
     return out
+
+
+# ---------------------------------------------------------------- frame.unmarshal: envelope clause (C06/C07)
+def unmarshal_envelope_contract():
+    """Whenever decoding succeeds on *any* input: the kind of object, the
+    channel and the consumed count are the ones written in the frame's own
+    7-octet header (type, channel, size + 8), no more octets are consumed than
+    were supplied, and the last consumed octet is the frame end; a protocol
+    header only for input starting with 'AMQP', consuming 8 octets."""
+    base, body, header, heartbeat, exceptions = _classes()
+
+    def post(c, res):
+        st, d = c.st, c.data_in
+        if not (isinstance(res, tuple) and len(res) == 3):
+            return False
+        n, ch, obj = res
+        if not (is_int(n) and is_int(ch) and isinstance(obj, SObj)):
+            return False
+        length = wire.blen(st, d)
+        if issubclass(obj.cls, header.ProtocolHeader):
+            a = wire.peek(st, d, 8)
+            if a is None:
+                return False
+            return conj(wire.atoms_eq(a[:4], b'AMQP'), eq(n, 8), eq(ch, 0))
+        h = wire.peek(st, d, 7)
+        if h is None:
+            return False
+        ftype, fch, size = wire.uint(h[0:1]), wire.uint(h[1:3]), wire.uint(h[3:7])
+        kinds = {1: base.Frame, 2: header.ContentHeader, 3: body.ContentBody, 8: heartbeat.Heartbeat}
+        kind_ok = disj(*[eq(ftype, t) for t, k in kinds.items() if issubclass(obj.cls, k)])
+        if not st.branch(B(conj(eq(n, I(size) + 8), le(n, length))), 'spec:consumed-is-size+8-and-present'):
+            return False
+        last = wire.byte_at(st, d, mk_int(I(n) - 1))
+        return conj(kind_ok, eq(ch, fch), eq(last, wire.FRAME_END))
+
+    return Contract(FRM + 'unmarshal', [('data_in', T.bytes)],
+                    cases=[Case('envelope', post=post, may_raise=(Exception,))],
+                    name=FRM + 'unmarshal(env)', selector=lambda fn, args: False, bounded=False,
+                    doc='C06/C07 envelope clause over all byte strings on which decoding succeeds')
